@@ -66,7 +66,7 @@ CONTRACTS = {
         # a paused inner run pauses the outer run (never swallowed, never turned into values); anything else is translated back
         raises={"PauseExecution": "result.status == RunStatus.PAUSED"},
         may_raise={"AssertionError": "result.status == RunStatus.PAUSED"},
-        ensures=["result is node.map_outputs_from_original(old(result).values)"],
+        ensures=["result == node.map_outputs_from_original(old(result).values)"],
     ),
     AG + "__call__": dict(
         props=["C05", "C10", "C14"],
